@@ -202,7 +202,40 @@ func (p *Prog) FuncKey(fn *ssa.Function) string {
 	if fn.Pkg == nil {
 		return fn.String()
 	}
-	return relPkg(fn.Pkg.Pkg.Path()) + ":" + fn.RelString(fn.Pkg.Pkg)
+	return refRecvForm(relPkg(fn.Pkg.Pkg.Path()) + ":" + fn.RelString(fn.Pkg.Pkg))
+}
+
+var refKeys map[string]bool
+
+// refRecvForm: a method whose receiver changed between value and pointer
+// keeps the key it has in the reference tree ("pkg:(T).m" / "pkg:(*T).m").
+func refRecvForm(key string) string {
+	if refKeys == nil {
+		refKeys = refFuncs()
+		if refKeys == nil {
+			refKeys = map[string]bool{}
+		}
+	}
+	if refKeys[key] {
+		return key
+	}
+	if alt := altRecvKey(key); alt != "" && refKeys[alt] {
+		return alt
+	}
+	return key
+}
+
+// altRecvKey flips "(T).m" <-> "(*T).m" in "pkg:(T).m".
+func altRecvKey(key string) string {
+	i := strings.Index(key, ":(")
+	if i < 0 {
+		return ""
+	}
+	rest := key[i+2:]
+	if strings.HasPrefix(rest, "*") {
+		return key[:i+2] + rest[1:]
+	}
+	return key[:i+2] + "*" + rest
 }
 
 func (p *Prog) Func(key string) *ssa.Function { return p.byKey[key] }
@@ -284,7 +317,20 @@ func (p *Prog) CalleeID(c *ssa.CallCommon) string {
 func (p *Prog) fnID(fn *ssa.Function) string {
 	if o := fn.Object(); o != nil {
 		if f, ok := o.(*types.Func); ok {
-			return f.FullName()
+			id := f.FullName()
+			// keep the reference tree's receiver form for module methods
+			if fn.Pkg != nil && isModulePkg(fn.Pkg.Pkg) && fn.Signature.Recv() != nil {
+				key := relPkg(fn.Pkg.Pkg.Path()) + ":" + fn.RelString(fn.Pkg.Pkg)
+				if ref := refRecvForm(key); ref != key {
+					// "(pkgpath.T).m" <-> "(*pkgpath.T).m"
+					if strings.HasPrefix(id, "(*") {
+						id = "(" + id[2:]
+					} else if strings.HasPrefix(id, "(") {
+						id = "(*" + id[1:]
+					}
+				}
+			}
+			return id
 		}
 	}
 	if fn.Origin() != nil {
